@@ -25,7 +25,8 @@ func (reg *ResourceRegistry) fetchFile(ctx context.Context, client *http.Client,
 	if tries > 0 {
 		select {
 		case <-ctx.Done():
-			return nil // module is shutting down
+			// Module is shutting down. Nothing was fetched, so do not report success.
+			return ctx.Err()
 		case <-time.After(time.Duration(tries*tries) * time.Second):
 		case <-verifBackoff(tries):
 		}
@@ -155,7 +156,8 @@ func (reg *ResourceRegistry) fetchMissingSig(ctx context.Context, client *http.C
 	if tries > 0 {
 		select {
 		case <-ctx.Done():
-			return nil // module is shutting down
+			// Module is shutting down. Nothing was fetched, so do not report success.
+			return ctx.Err()
 		case <-time.After(time.Duration(tries*tries) * time.Second):
 		case <-verifBackoff(tries):
 		}
